@@ -1,3 +1,186 @@
-//! C12 — not built yet.
+//! C12 — caches are invisible: cached and uncached documents answer identically, call by call.
+use crate::corpus::{digest, valid_files, Sample};
+use crate::doc::root_kind;
+use crate::panicmon::guard;
+use crate::par::par_for;
+use crate::rng::{fnv, Rng};
 use crate::run::Run;
-pub fn run(_run: &Run) { eprintln!("C12: check not built yet"); std::process::exit(2); }
+use pdf::any::AnySync;
+use pdf::error::PdfError;
+use pdf::file::{Cache, FileOptions, NoCache, SyncCache};
+use pdf::font::Font;
+use pdf::object::*;
+use pdf::primitive::{Dictionary, Primitive};
+use serde_json::json;
+use std::collections::BTreeMap;
+use std::sync::atomic::{AtomicU64, Ordering};
+use std::sync::Arc;
+
+/// Instrumented implementation of the public `Cache` trait wrapping the real cache.
+pub struct MonCache<C> { inner: C, hits: Arc<AtomicU64>, misses: Arc<AtomicU64> }
+impl<C> MonCache<C> { pub fn new(inner: C, hits: Arc<AtomicU64>, misses: Arc<AtomicU64>) -> Self { MonCache { inner, hits, misses } } }
+impl<T: Clone, C: Cache<T>> Cache<T> for MonCache<C> {
+    fn get_or_compute(&self, key: PlainRef, compute: impl FnOnce() -> T) -> T {
+        let mut computed = false;
+        let r = self.inner.get_or_compute(key, || { computed = true; compute() });
+        if computed { self.misses.fetch_add(1, Ordering::Relaxed); } else { self.hits.fetch_add(1, Ordering::Relaxed); }
+        r
+    }
+    fn clear(&self) { self.inner.clear() }
+}
+
+pub const KINDS: [&str; 12] = ["resolve", "get-Dictionary", "get-Primitive", "get-PagesNode", "get-Font", "get-XObject", "raw_image_data", "image_data", "stream-data", "get-ObjectStream", "get-Resources", "get_page"];
+
+fn err(e: &PdfError) -> String { format!("Err({})", root_kind(e)) }
+fn h(d: &[u8]) -> String { format!("{}b#{:016x}", d.len(), fnv(d)) }
+
+/// one read call, rendered offset- and address-independently
+pub fn exec_call(res: &impl Resolve, id: u64, kind: usize) -> String {
+    let r = PlainRef { id, gen: 0 };
+    match kind {
+        0 => match res.resolve(r) { Ok(p) => digest(&p, res), Err(e) => err(&e) },
+        1 => match res.get::<Dictionary>(Ref::new(r)) { Ok(d) => digest(&Primitive::Dictionary((**d.data()).clone()), res), Err(e) => err(&e) },
+        2 => match res.get::<Primitive>(Ref::new(r)) { Ok(p) => digest(&**p.data(), res), Err(e) => err(&e) },
+        3 => match res.get::<PagesNode>(Ref::new(r)) { Ok(n) => match &**n.data() {
+            PagesNode::Leaf(p) => format!("page rot={} media={:?} crop={:?} contents={} other={}", p.rotate, p.media_box.map(|b| (b.left, b.bottom, b.right, b.top)), p.crop_box.map(|b| (b.left, b.bottom, b.right, b.top)), p.contents.is_some(), p.other.len()),
+            PagesNode::Tree(t) => format!("tree count={} kids={:?}", t.count, t.kids.iter().map(|k| k.get_inner().id).collect::<Vec<_>>()) }, Err(e) => err(&e) },
+        4 => match res.get::<Font>(Ref::new(r)) { Ok(f) => {
+            let w = match f.widths(res) { Ok(Some(w)) => format!("{:?}", [w.get(0), w.get(32), w.get(65), w.get(300)]), Ok(None) => "nowidths".into(), Err(e) => err(&e) };
+            let tu = match f.to_unicode(res) { Some(Ok(m)) => format!("tu{}", m.len()), Some(Err(e)) => err(&e), None => "notu".into() };
+            format!("font {:?} {:?} {} {}", f.subtype, f.name, w, tu) }, Err(e) => err(&e) },
+        5 => match res.get::<XObject>(Ref::new(r)) { Ok(x) => match &**x.data() {
+            XObject::Image(i) => format!("image {}x{} {}", i.width, i.height, match i.image_data(res) { Ok(d) => h(&d), Err(e) => err(&e) }),
+            XObject::Form(f) => format!("form {}", match f.operations(res) { Ok(o) => format!("{} ops #{:016x}", o.len(), fnv(format!("{:?}", o).as_bytes())), Err(e) => err(&e) }),
+            XObject::Postscript(_) => "ps".into() }, Err(e) => err(&e) },
+        6 => match res.get::<ImageXObject>(Ref::new(r)) { Ok(i) => match i.raw_image_data(res) { Ok((d, f)) => format!("raw {} filter={}", h(&d), f.map(|f| format!("{:?}", f).chars().take(12).collect::<String>()).unwrap_or_default()), Err(e) => err(&e) }, Err(e) => err(&e) },
+        7 => match res.get::<ImageXObject>(Ref::new(r)) { Ok(i) => match i.image_data(res) { Ok(d) => h(&d), Err(e) => err(&e) }, Err(e) => err(&e) },
+        8 => match res.get::<Stream<()>>(Ref::new(r)) { Ok(s) => match (**s.data()).data(res) { Ok(d) => h(&d), Err(e) => err(&e) }, Err(e) => err(&e) },
+        9 => match res.get::<ObjectStream>(Ref::new(r)) { Ok(o) => format!("objstm n={}", o.n_objects()), Err(e) => err(&e) },
+        10 => match res.get::<Resources>(Ref::new(r)) { Ok(x) => { let mut k: Vec<String> = x.fonts.keys().map(|k| format!("F:{}", k.as_str())).chain(x.xobjects.keys().map(|k| format!("X:{}", k.as_str()))).chain(x.graphics_states.keys().map(|k| format!("G:{}", k.as_str()))).collect(); k.sort(); format!("res {:?}", k) }, Err(e) => err(&e) },
+        _ => unreachable!(),
+    }
+}
+
+macro_rules! run_seq {
+    ($file:expr, $seq:expr) => {{
+        let f = $file;
+        let mut out: Vec<String> = Vec::new();
+        for &(id, kind) in $seq.iter() {
+            let r = guard(|| if kind == 11 { match f.get_page(id as u32) { Ok(p) => format!("page#{} rot={} media={:?}", p.get_ref().get_inner().id, p.rotate, p.media_box().map(|b| (b.left, b.bottom, b.right, b.top)).map_err(|e| root_kind(&e))), Err(e) => err(&e) } } else { exec_call(&f.resolver(), id, kind) });
+            out.push(match r { Ok(s) => s, Err(p) => format!("PANIC {}", p.signature()) });
+        }
+        out
+    }};
+}
+
+pub struct Counters { pub oh: Arc<AtomicU64>, pub om: Arc<AtomicU64>, pub sh: Arc<AtomicU64>, pub sm: Arc<AtomicU64> }
+
+/// run a call sequence on a fresh document in cache configuration `cfg` (bit 0: object cache, bit 1: stream cache)
+pub fn run_config(s: &Sample, cfg: u8, seq: &[(u64, usize)], c: &Counters) -> Result<Vec<String>, String> {
+    type OCV = Result<AnySync, Arc<PdfError>>;
+    type SCV = Result<Arc<[u8]>, Arc<PdfError>>;
+    let e = |e: PdfError| format!("load: {}", root_kind(&e));
+    Ok(match cfg {
+        3 => { let f = FileOptions::uncached().cache(MonCache::new(SyncCache::<PlainRef, OCV>::new(), c.oh.clone(), c.om.clone()), MonCache::new(SyncCache::<PlainRef, SCV>::new(), c.sh.clone(), c.sm.clone())).password(&s.password).load(s.bytes.clone()).map_err(e)?; run_seq!(f, seq) }
+        1 => { let f = FileOptions::uncached().cache(MonCache::new(SyncCache::<PlainRef, OCV>::new(), c.oh.clone(), c.om.clone()), MonCache::new(NoCache, c.sh.clone(), c.sm.clone())).password(&s.password).load(s.bytes.clone()).map_err(e)?; run_seq!(f, seq) }
+        2 => { let f = FileOptions::uncached().cache(MonCache::new(NoCache, c.oh.clone(), c.om.clone()), MonCache::new(SyncCache::<PlainRef, SCV>::new(), c.sh.clone(), c.sm.clone())).password(&s.password).load(s.bytes.clone()).map_err(e)?; run_seq!(f, seq) }
+        _ => { let f = FileOptions::uncached().password(&s.password).load(s.bytes.clone()).map_err(e)?; run_seq!(f, seq) }
+    })
+}
+
+fn permutations(items: &[usize]) -> Vec<Vec<usize>> {
+    if items.len() <= 1 { return vec![items.to_vec()]; }
+    let mut out = Vec::new();
+    for i in 0..items.len() { let mut rest = items.to_vec(); let x = rest.remove(i); for mut p in permutations(&rest) { p.insert(0, x); out.push(p); } }
+    out
+}
+
+pub fn samples(_seed: u64) -> Vec<Sample> {
+    let mut v: Vec<Sample> = valid_files().into_iter().filter(|s| s.bytes.len() < 200_000).collect();
+    for (i, l) in [crate::richdoc::Layout::Classic, crate::richdoc::Layout::XrefStream].iter().enumerate() {
+        v.push(Sample { name: format!("rich-{}", i), bytes: crate::richdoc::write(&crate::richdoc::objects(), *l, b""), password: vec![] });
+    }
+    // images whose filter chain splits into "normal" and "image" filters
+    {
+        use crate::mkpdf::{arr, name, rf, stream, Obj};
+        let mut objs = crate::mkpdf::skeleton(1);
+        let raw: Vec<u8> = (0..48u8).collect();
+        let z = miniz_oxide::deflate::compress_to_vec_zlib(&raw, 6);
+        let mut s = crate::tape::Src::replay(&[]);
+        let a85z = crate::refimpl::codec::a85_encode(&z, &mut s);
+        let img = |f: Obj, data: &[u8]| stream(vec![("Type", name("XObject")), ("Subtype", name("Image")), ("Width", Obj::Int(4)), ("Height", Obj::Int(4)), ("BitsPerComponent", Obj::Int(8)), ("ColorSpace", name("DeviceRGB")), ("Filter", f)], data);
+        objs.push((4, img(name("FlateDecode"), &z)));
+        objs.push((5, img(arr(vec![name("ASCII85Decode"), name("FlateDecode")]), &a85z)));
+        objs.push((6, img(arr(vec![name("ASCIIHexDecode")]), b"000102030405060708090a0b0c0d0e0f101112131415161718191a1b1c1d1e1f202122232425262728292a2b2c2d2e2f>")));
+        objs[2].1.set("Resources", crate::mkpdf::dict(vec![("XObject", crate::mkpdf::dict(vec![("A", rf(4)), ("B", rf(5)), ("C", rf(6))]))]));
+        v.push(Sample { name: "images-filter-chains".into(), bytes: crate::mkpdf::simple_doc(&objs, 1, vec![]), password: vec![] });
+    }
+    v
+}
+
+pub fn run(run: &Run) {
+    run.rule("per file (corpus < 200 KB incl. encrypted, JPEG image, object streams; generated rich documents; images with Flate / ASCII85+Flate / ASCIIHex chains): for each of the first objects, the call kinds {resolve, get as Dictionary / Primitive / PagesNode / Font / XObject / ObjectStream / Resources, raw_image_data, image_data, Stream::data} whose stand-alone answers differ pairwise are run in every order (<= 4 kinds: 24 permutations) plus seeded random sequences (<= 30 calls over <= 6 objects incl. get_page), on documents opened with {object+stream cache, object cache only, stream cache only, none}; every answer (offset/address-independent digest or root error kind) must equal the answer the call gives alone on a fresh uncached document. MonCache counts hits/misses. distinct_nontrivial = distinct (file, sequence) pairs with at least one cache hit in the fully cached run");
+    run.assume("a call's reference answer is its result on a fresh uncached document (the statement: the answer never depends on which calls came before)");
+    let files = samples(run.seed);
+    let totals = Counters { oh: Arc::new(AtomicU64::new(0)), om: Arc::new(AtomicU64::new(0)), sh: Arc::new(AtomicU64::new(0)), sm: Arc::new(AtomicU64::new(0)) };
+    let max_obj = if run.quick() { 40 } else { 400 };
+    let n_random = run.n(400, 20_000);
+    par_for(files.len() as u64, |fi| {
+        let s = &files[fi as usize];
+        // stand-alone answers
+        let Ok(base) = FileOptions::uncached().password(&s.password).load(s.bytes.clone()) else { run.count("file_not_loadable"); return };
+        let size = (base.trailer.size.max(0) as u64).min(max_obj);
+        let np = base.num_pages().min(6) as u64;
+        drop(base);
+        let none = Counters { oh: Arc::new(AtomicU64::new(0)), om: Arc::new(AtomicU64::new(0)), sh: Arc::new(AtomicU64::new(0)), sm: Arc::new(AtomicU64::new(0)) };
+        let mut alone: BTreeMap<(u64, usize), String> = BTreeMap::new();
+        for id in 0..size { for k in 0..11 { if let Ok(v) = run_config(s, 0, &[(id, k)], &none) { alone.insert((id, k), v[0].clone()); } } }
+        for i in 0..np + 1 { if let Ok(v) = run_config(s, 0, &[(i, 11)], &none) { alone.insert((i, 11), v[0].clone()); } }
+        let check = |seq: &[(u64, usize)], why: &str| {
+            run.eval();
+            for cfg in [3u8, 1, 2, 0] {
+                let c = Counters { oh: Arc::new(AtomicU64::new(0)), om: Arc::new(AtomicU64::new(0)), sh: Arc::new(AtomicU64::new(0)), sm: Arc::new(AtomicU64::new(0)) };
+                let Ok(got) = run_config(s, cfg, seq, &c) else { run.inconclusive(format!("{}: load failed in config {}", s.name, cfg)); return };
+                if cfg == 3 && c.oh.load(Ordering::Relaxed) + c.sh.load(Ordering::Relaxed) > 0 { run.nontrivial(fnv(format!("{}{:?}", s.name, seq).as_bytes())); }
+                totals.oh.fetch_add(c.oh.load(Ordering::Relaxed), Ordering::Relaxed); totals.om.fetch_add(c.om.load(Ordering::Relaxed), Ordering::Relaxed);
+                totals.sh.fetch_add(c.sh.load(Ordering::Relaxed), Ordering::Relaxed); totals.sm.fetch_add(c.sm.load(Ordering::Relaxed), Ordering::Relaxed);
+                for (i, ((id, k), g)) in seq.iter().zip(got.iter()).enumerate() {
+                    let Some(exp) = alone.get(&(*id, *k)) else { continue };
+                    if g != exp {
+                        // signature: configuration + this call's kind + the kinds that ran before it on the same object
+                        let mut before: Vec<&str> = seq[..i].iter().filter(|(j, _)| j == id).map(|(_, kk)| KINDS[*kk]).collect(); before.sort(); before.dedup();
+                        let cls = if g.starts_with("PANIC") { g.clone() } else if g.starts_with("Err(") && !exp.starts_with("Err(") { "error-instead-of-value".into() } else if !g.starts_with("Err(") && exp.starts_with("Err(") { "value-instead-of-error".into() } else if g.starts_with("Err(") { "different-error-kind".into() } else { "different-value".into() };
+                        let sig = format!("C12|cache={}|{}|{}", ["none", "object", "stream", "both"][cfg as usize], KINDS[*k], cls);
+                        run.violation(&sig, &format!("{} object {}: {} answered {} but alone it answers {} ({})", s.name, id, KINDS[*k], g.chars().take(90).collect::<String>(), exp.chars().take(90).collect::<String>(), why),
+                            json!({"file": s.name, "sequence": seq.iter().map(|(i, k)| format!("{}:{}", i, KINDS[*k])).collect::<Vec<_>>(), "call_index": i, "config": cfg, "earlier_calls_on_same_object": before}));
+                        return;
+                    }
+                }
+            }
+        };
+        // exhaustive orderings per object of the kinds with pairwise different stand-alone answers
+        for id in 0..size {
+            let mut kinds: Vec<usize> = Vec::new();
+            for k in 0..11 { if let Some(a) = alone.get(&(id, k)) { if !kinds.iter().any(|kk| alone.get(&(id, *kk)) == Some(a)) { kinds.push(k); } } }
+            // prefer kinds that succeed; keep at most 4 (24 orders), quick: 3 for objects beyond the first 12
+            kinds.sort_by_key(|k| alone.get(&(id, *k)).map(|a| a.starts_with("Err(")).unwrap_or(true));
+            kinds.truncate(if run.quick() && id >= 12 { 3 } else { 4 });
+            if kinds.len() < 2 { continue; }
+            for p in permutations(&kinds) { let seq: Vec<(u64, usize)> = p.iter().map(|k| (id, *k)).collect(); check(&seq, "permutation"); }
+            run.count("objects_with_all_orderings");
+        }
+        // seeded random sequences
+        for j in 0..n_random {
+            let mut r = Rng::derive(run.seed, 12, fi * 100_000 + j);
+            let objs: Vec<u64> = (0..1 + r.below(6)).map(|_| r.below(size.max(1))).collect();
+            let len = 2 + r.below(29);
+            let seq: Vec<(u64, usize)> = (0..len).map(|_| if np > 0 && r.below(6) == 0 { (r.below(np + 1), 11) } else { (objs[r.below(objs.len() as u64) as usize], r.below(11) as usize) }).collect();
+            check(&seq, "random");
+            if fi == 0 && j < 3 { run.sample(json!({"file": s.name, "sequence": seq.iter().map(|(i, k)| format!("{}:{}", i, KINDS[*k])).collect::<Vec<_>>() })); }
+        }
+        run.count(&format!("file:{}", s.name));
+    });
+    run.add("object_cache_hits", totals.oh.load(Ordering::Relaxed)); run.add("object_cache_misses", totals.om.load(Ordering::Relaxed));
+    run.add("stream_cache_hits", totals.sh.load(Ordering::Relaxed)); run.add("stream_cache_misses", totals.sm.load(Ordering::Relaxed));
+    if totals.oh.load(Ordering::Relaxed) == 0 || totals.sh.load(Ordering::Relaxed) == 0 { run.inconclusive("no cache hit observed at all".into()); }
+}
